@@ -35,6 +35,7 @@ type Case struct {
 	FileMB    int      `json:"file_mb,omitempty"`    // smart: file size reported by the fake index
 	MinConf   int      `json:"min_conf,omitempty"`   // smart: selector's minimum confidence in percent
 	StableUS  int      `json:"stable_us,omitempty"`  // smart: selector's minimum stability period in microseconds
+	DetCap    int      `json:"det_cap,omitempty"`    // smart: capacity of the detector's bounded history (0 = default 10000): small values make it wrap
 	Rotate    bool     `json:"rotate,omitempty"`     // smart: the selector's strategy proposes lazy, incremental, none, incremental, .. in turn (every evaluation changes the mode)
 	PreEnable bool     `json:"pre_enable,omitempty"` // btree: incremental mode is enabled before the goroutines start (no enable/stop race window)
 	Threads   []Thread `json:"threads"`
